@@ -60,19 +60,26 @@ impl Session {
         })
     }
 
+    /// Can thread `tid` take what it asks for now? Exclusive: nobody holds the lock. Shared: no exclusive holder,
+    /// and - as parking_lot does to keep writers from starving - no other thread queued for exclusive access while
+    /// the lock is held (a thread parked at an exclusive acquisition of a held lock is such a queued writer). The
+    /// second clause is what makes a recursive read deadlock against a waiting writer, as it does in the real lock.
     fn available(inner: &Inner, tid: usize, want: &Option<(usize, bool)>) -> bool {
         match want {
             None => true,
-            Some((l, excl)) => match inner.holders.get(l) {
-                None => true,
-                Some((sh, ex)) => {
-                    if *excl {
-                        ex.is_none() && sh.iter().all(|t| *t == tid) && sh.is_empty()
-                    } else {
-                        ex.is_none()
-                    }
+            Some((l, excl)) => {
+                let (sh, ex): (&[usize], Option<usize>) = match inner.holders.get(l) {
+                    None => (&[], None),
+                    Some((sh, ex)) => (sh.as_slice(), *ex),
+                };
+                if *excl {
+                    ex.is_none() && sh.is_empty()
+                } else {
+                    let held = ex.is_some() || !sh.is_empty();
+                    let writer_queued = held && inner.threads.iter().enumerate().any(|(u, s)| u != tid && matches!(s, TS::Waiting { want: Some((l2, true)) } if l2 == l));
+                    ex.is_none() && !writer_queued
                 }
-            },
+            }
         }
     }
 
